@@ -200,6 +200,7 @@ W_RULES = [
     ('W.enumerate', re.compile(r'\.chars\(\)\s*\.enumerate\(\)'), lambda r, mo: 'vx_enumerate(%s.chars())' % r),
     ('W.char_indices', re.compile(r'\.char_indices\(\)'), lambda r, mo: 'vx_char_indices(%s)' % r),
     ('W.nth', re.compile(r'\.chars\(\)\s*\.nth\(([^()]*(?:\([^()]*\))?[^()]*)\)'), lambda r, mo: 'vx_chars_nth(%s, %s)' % (r, mo.group(1))),
+    ('W.to_string', re.compile(r'\.to_string\(\)'), lambda r, mo: 'vx_char_to_string(%s)' % r),
     ('W.count', re.compile(r'\.chars\(\)\s*\.count\(\)'), lambda r, mo: 'vx_chars_count(&*%s)' % r),
     ('W.ends_with', re.compile(r'\.ends_with\(([^()]*)\)'), lambda r, mo: 'vx_string_ends_with_char(&%s, %s)' % (r, mo.group(1))),
     ('W.as_ref', re.compile(r'\.as_ref\(\)'), lambda r, mo: 'vx_as_ref_str(&%s)' % r),
